@@ -420,7 +420,7 @@ def random_spec(rng, want_cn=None, pseudogene=None, kinds=None, hostile=0.3, max
     builds = {}
     regions_y = {}
     mappings = {}
-    chrom = rng.choice(["7", "19", "X"]) if rng.random() < 0.8 else "22"
+    chrom = rng.choice(["7", "19", "X"]) if rng.random() < 0.7 else rng.choice(["22", "10", "1"])
     zero_pce = pseudogene and rng.random() < 0.3
     cn_regions = [r for r in order if r[0] in "ei"]
     if rng.random() < 0.3:
